@@ -32,7 +32,7 @@ ASSUMPTIONS = [
     "duration vector in {0,1,2}^n the complete solution sets of the real model (objective removed, all solutions enumerated) and of the "
     "recorded model (z3 AllSAT) are equal",
     "layer 4 runs the real ORToolsSolver only on the concrete duration vectors produced by the solver for each symbolic path "
-    "(representatives, not for-all) and on ft06 in the thorough tier",
+    "(representatives, not for-all) and on four benchmark instances in the thorough tier",
 ]
 STUBS = ["max", "min", "int (dispatcher module only)", "cp_model (recording stub: CpModel, CpSolver, status constants)"]
 BUDGET = {"quick": 480, "thorough": 3000}
@@ -44,7 +44,7 @@ def bounds(tier):
     if tier == "quick":
         return ("every ordered shape <=3 jobs <=4 operations (status FEASIBLE: <=3), every non-flexible machine assignment M<=2; solver status in {OPTIMAL, FEASIBLE, "
                 "UNKNOWN}; fresh solver and solver object reused after solving a different instance; durations Z>=0")
-    return "quick + 5 operations M<=3 up to machine renaming; status INFEASIBLE; real OR-Tools on ft06"
+    return "quick + 5 operations M<=3 up to machine renaming; status INFEASIBLE; real OR-Tools on ft06, la01, la02, la05 (recorded optimum and bounds; z3 optimality certificate for ft06)"
 
 
 def subspaces(tier):
@@ -58,7 +58,8 @@ def subspaces(tier):
         out += C.structure_subspaces(s4, 2, False, status="feasible", reuse=True)
         out += C.structure_subspaces(D.shapes(2, 2), 2, False, status="infeasible", reuse=False)
         out += C.structure_subspaces([s for s in D.shapes(3, 5) if sum(s) == 5], 3, False, canonical=True, status="optimal", reuse=False)
-        out.append(dict(shape=[1], machines=[[0]], status="optimal", reuse=False, benchmark="ft06"))
+        for b in ("ft06", "la01", "la02", "la05"):
+            out.append(dict(shape=[1], machines=[[0]], status="optimal", reuse=(b == "la02"), benchmark=b))
         out += C.structure_subspaces(D.shapes(3, 3), 2, False, status="optimal", reuse=False, stubcheck=True)
     return out
 
@@ -447,7 +448,13 @@ def real_harness(eng, sp):
                    tag="/real")
     if status == "optimal":
         mk = sched.makespan()
-        r = z3_optimum_certificate(desc, desc.dur, mk)
+        # z3 certificate of optimality for instances it can decide quickly; larger benchmark instances are compared with the
+        # recorded optimum and bounds only
+        r = z3_optimum_certificate(desc, desc.dur, mk) if desc.n_ops <= 36 else "unsat"
+        if sp.get("benchmark"):
+            lb, ub = inst.metadata.get("lower_bound"), inst.metadata.get("upper_bound")
+            if (lb is not None and mk < lb) or (ub is not None and mk > ub):
+                eng.fail("C03/real/optimal-outside-recorded-benchmark-bounds", f"{mk} not in [{lb},{ub}]")
         if str(r) != "unsat":
             eng.fail("C03/real/reported-optimal-but-a-shorter-feasible-schedule-exists", f"makespan {mk}, z3: {r}")
         if sp.get("benchmark"):
